@@ -327,6 +327,25 @@ let register (reg : string -> (Sx.t list -> Sx.t) -> unit) : unit =
          | Upstream.RedirectSlash -> Y "redirect_slash"
          | Upstream.NotFound -> Y "notfound")
       | _ -> raise (Bad "upstream_route arity"));
+  (* ---- Proxy ---- *)
+  reg "proxy_serve" (function
+      | [ep; skipb; fjson; bypass; domains; groups; bearer; basic; stored; ajax; api; vg; clearfails] ->
+        let rd_as = rd_opt (function
+            | L [em; gs] -> { Authz.a_email = rd_str em; a_groups = rd_list rd_str gs }
+            | v -> raise (Bad ("bad session " ^ to_string v))) in
+        let e = (match rd_sym ep with "proxy" -> Proxy.EpProxy | "authonly" -> Proxy.EpAuthOnly | _ -> Proxy.EpUserInfo) in
+        let cfg = { Proxy.p_skip_provider_button = rd_bool skipb; p_force_json = rd_bool fjson } in
+        let c = { Proxy.cr_bearer = rd_as bearer; cr_basic = rd_as basic; cr_stored = rd_as stored } in
+        let rq = { Proxy.q_ajax = rd_bool ajax; q_api = rd_bool api; q_groups = rd_list rd_str vg; q_domains = []; q_emails = []; q_clear_fails = rd_bool clearfails } in
+        let validator em = Authz.email_valid (rd_list rd_str domains) [] em in
+        let (o, cleared) = Proxy.serve e cfg true true (rd_bool bypass) validator (rd_list rd_str groups) c rq in
+        let cls = (match o with
+            | Proxy.PUpstream _ -> "upstream" | Proxy.PAccepted _ -> "accepted"
+            | Proxy.PUserInfo (Some _) -> "userinfo" | Proxy.PUserInfo None -> "userinfo_empty"
+            | Proxy.PSignInPage -> "signin" | Proxy.PRedirectToProvider -> "redirect_provider"
+            | Proxy.PUnauthorized -> "unauthorized" | Proxy.PForbidden -> "forbidden" | Proxy.PErrorPage -> "other_500") in
+        ignore cleared; L [Y cls]
+      | _ -> raise (Bad "proxy_serve arity"));
   reg "split_host_port" (function
       | [x] -> wr_opt (wr_pair wr_str wr_str) (NetAddr.split_host_port (rd_str x))
       | _ -> raise (Bad "split_host_port arity"));
